@@ -85,7 +85,38 @@ type cas struct {
 	// blocks of an included template that extends, beside `ib`: 0 none; 1 its parent defines block k;
 	// 2 it overrides that block k; 3 it overrides it and calls parent()
 	xblk int
+	// history (hist == 0: none; all fields below are 0 then): before the program is rendered, a render that
+	// fails inside an include takes place in the same process (histRounds times)
+	hist  int // kind of the earlier failure, see histLabel
+	hEng  int // 0: the earlier render ran on the engine that renders the case afterwards; 1: on another engine
+	hOpts int // options of the failing include beside `with`: bit0 only, bit1 sandboxed
 }
+
+// kinds of the earlier failure. The failing include is `{% include T with {…} [only] [sandboxed] %}` at the top
+// level of a template `hist`; its with-hash passes a, b, c, d (values Ha … Hd) and hist is rendered with a
+// context that defines a, b, c, d, q (Pa … Pq).
+const (
+	hNone              = iota
+	hDiv2                     // T = the case's own target; the 2nd entry of the with-hash is `1 / 0`
+	hDiv3                     // … the 3rd entry
+	hFlt2                     // 2nd entry `'x'|nosuch`
+	hFlt3                     // 3rd entry
+	hFn2                      // 2nd entry `boom()` (callback error)
+	hFn3                      // 3rd entry
+	hTmplFails                // T fails at render (callback error)
+	hMissing                  // T does not exist (no `ignore missing`)
+	hNestedMissing            // T exists and includes a template that does not exist
+	hFailsAfterInclude        // T includes the case's own target (that include completes) and fails afterwards
+	nHist
+)
+
+var histLabel = [nHist]string{"", "with-div0-2nd", "with-div0-3rd", "with-nofilter-2nd", "with-nofilter-3rd", "with-callback-2nd", "with-callback-3rd",
+	"target-fails", "target-missing", "target-nested-missing", "target-fails-after-own-include"}
+
+// histRounds: how often the failing render is performed before the case's program is rendered. (The engine
+// is free to evaluate the entries of a hash in any order; with several rounds it is practically certain
+// that on some round a good entry was evaluated before the failing one.)
+const histRounds = 3
 
 func (c cas) key() string {
 	p, d := 0, 0
@@ -101,6 +132,9 @@ func (c cas) key() string {
 	}
 	if c.depth != 0 {
 		k += fmt.Sprintf("/c%d.%d.%d", c.depth, c.holder, c.kOver)
+	}
+	if c.hist != 0 {
+		k += fmt.Sprintf("/h%d.%d.%d", c.hist, c.hEng, c.hOpts)
 	}
 	return k
 }
@@ -159,6 +193,9 @@ type program struct {
 	w      *world
 	ctx    map[string]string
 	padded []string // the templates that get the comment padding in the padded twin (those that hold includes)
+	// history cases: the templates of the earlier, failing render (entry point `hist`) and its context
+	hw   *world
+	hctx map[string]string
 }
 
 func build(c cas) *program {
@@ -315,7 +352,61 @@ func build(c cas) *program {
 		}
 		padded = []string{"main", "pg", "lay", "mid"}
 	}
-	return &program{w: w, ctx: ctx, padded: padded}
+	p := &program{w: w, ctx: ctx, padded: padded}
+	if c.hist != 0 {
+		p.hw, p.hctx = buildHist(c, w, tn)
+		p.padded = append(p.padded, "hist", "hmid")
+	}
+	return p
+}
+
+// buildHist: the templates of the earlier render, which fails inside an include (see the h… constants).
+func buildHist(c cas, w *world, tn string) (*world, map[string]string) {
+	hw := &world{tmpls: map[string]*tmpl{}, fails: w.fails}
+	// a template that exists and prints a-d: the case's own target (the same template is then rendered again by
+	// the case) or, when the case's target is missing, a template of its own
+	own := tn
+	switch c.target {
+	case tPlain:
+		hw.tmpls["inc"] = w.tmpls["inc"]
+	case tExtends:
+		hw.tmpls["inx"], hw.tmpls["ibase"] = w.tmpls["inx"], w.tmpls["ibase"]
+	default:
+		own = "hinc"
+		hw.tmpls["hinc"] = &tmpl{body: cat(one(nText{"<"}), prints(",", abcd...), one(nText{">"}))}
+	}
+	var with []withEntry
+	for _, v := range abcd {
+		with = append(with, withEntry{key: v, lit: "H" + v})
+	}
+	insert := func(at int, e withEntry) {
+		with = append(with[:at], append([]withEntry{e}, with[at:]...)...)
+	}
+	target := own
+	switch c.hist {
+	case hDiv2, hFlt2, hFn2:
+		insert(1, withEntry{key: "e", fail: (c.hist + 1) / 2})
+	case hDiv3, hFlt3, hFn3:
+		insert(2, withEntry{key: "e", fail: (c.hist + 1) / 2})
+	case hTmplFails:
+		target = "brt"
+		hw.tmpls["brt"] = &tmpl{body: []node{nText{"x"}, nBoom{}}}
+	case hMissing:
+		target = "nop"
+	case hNestedMissing:
+		target = "nmi"
+		hw.tmpls["nmi"] = &tmpl{body: []node{nText{"N"}, nInclude{name: nameExpr{form: 0, target: "nop"}}}}
+	case hFailsAfterInclude:
+		target = "hmid"
+		hw.tmpls["hmid"] = &tmpl{body: []node{nText{"M"}, nInclude{name: nameExpr{form: 0, target: own}}, nBoom{}}}
+	}
+	inc := nInclude{name: nameExpr{form: 0, target: target}, withOn: true, with: with, only: c.hOpts&1 != 0, sandboxed: c.hOpts&2 != 0}
+	hw.tmpls["hist"] = &tmpl{body: cat(one(nText{"H"}), one(inc), one(nText{"|"}), prints(",", abcd...))}
+	hctx := map[string]string{}
+	for _, v := range []string{"a", "b", "c", "d", "q"} {
+		hctx[v] = "P" + v
+	}
+	return hw, hctx
 }
 
 // ---- the real engine
@@ -352,24 +443,28 @@ func (r result) String() string {
 	return fmt.Sprintf("%q", r.out)
 }
 
-func runTwig(p *program, padded bool) (res result, sources map[string]string) {
-	sources = map[string]string{}
+func newEngine() *twig.Engine {
 	e := twig.New()
 	e.EnableSandbox(allowAll{})
 	e.RegisterLoader(twig.NewArrayLoader(map[string]string{"bsy": "x{% if %}"}))
 	e.RegisterLoader(ioLoader{})
 	e.AddFunction("boom", func(args ...interface{}) (interface{}, error) { return nil, errors.New("boom") })
-	names := make([]string, 0, len(p.w.tmpls))
-	for n := range p.w.tmpls {
+	return e
+}
+
+// register prints the templates and registers them (sorted by name); "" = all of them parsed.
+func register(e *twig.Engine, tmpls map[string]*tmpl, padNames []string, padded bool, sources map[string]string) string {
+	names := make([]string, 0, len(tmpls))
+	for n := range tmpls {
 		names = append(names, n)
 	}
 	sort.Strings(names)
 	for _, n := range names {
-		src := printTmpl(p.w.tmpls[n])
-		if padded && contains(p.padded, n) {
-			if p.w.tmpls[n].extends != "" {
+		src := printTmpl(tmpls[n])
+		if padded && contains(padNames, n) {
+			if tmpls[n].extends != "" {
 				// extends stays the first tag; the comment follows it
-				src = "{% extends " + q(p.w.tmpls[n].extends) + " %}" + pad + printNodes(p.w.tmpls[n].body)
+				src = "{% extends " + q(tmpls[n].extends) + " %}" + pad + printNodes(tmpls[n].body)
 			} else {
 				src = pad + src
 			}
@@ -378,18 +473,61 @@ func runTwig(p *program, padded bool) (res result, sources map[string]string) {
 			sources[n] = src
 		}
 		if err := e.RegisterString(n, src); err != nil {
-			return result{err: "template " + n + " does not parse: " + err.Error()}, sources
+			return "template " + n + " does not parse: " + err.Error()
 		}
 	}
+	return ""
+}
+
+func render(e *twig.Engine, name string, vars map[string]string) result {
 	ctx := map[string]interface{}{}
-	for k, v := range p.ctx {
+	for k, v := range vars {
 		ctx[k] = v
 	}
-	out, err := e.Render("main", ctx)
+	out, err := e.Render(name, ctx)
 	if err != nil {
-		return result{err: err.Error()}, sources
+		return result{err: err.Error()}
 	}
-	return result{out: out}, sources
+	return result{out: out}
+}
+
+func runTwig(p *program, padded bool) (res result, sources map[string]string) {
+	sources = map[string]string{}
+	e := newEngine()
+	if msg := register(e, p.w.tmpls, p.padded, padded, sources); msg != "" {
+		return result{err: msg}, sources
+	}
+	return render(e, "main", p.ctx), sources
+}
+
+// runTwigAfterFailure: the earlier render (template hist, histRounds times; every round must fail) and then
+// the case's program, on the same engine (sameEngine) or on an engine created afterwards.
+func runTwigAfterFailure(p *program, padded, sameEngine bool) (earlier []result, res result, sources map[string]string) {
+	sources = map[string]string{}
+	e := newEngine()
+	first := p.hw.tmpls
+	if sameEngine {
+		first = map[string]*tmpl{}
+		for n, t := range p.w.tmpls {
+			first[n] = t
+		}
+		for n, t := range p.hw.tmpls {
+			first[n] = t
+		}
+	}
+	if msg := register(e, first, p.padded, padded, sources); msg != "" {
+		return nil, result{err: msg}, sources
+	}
+	for i := 0; i < histRounds; i++ {
+		earlier = append(earlier, render(e, "hist", p.hctx))
+	}
+	if !sameEngine {
+		e = newEngine()
+		if msg := register(e, p.w.tmpls, p.padded, padded, sources); msg != "" {
+			return earlier, result{err: msg}, sources
+		}
+	}
+	return earlier, render(e, "main", p.ctx), sources
 }
 
 func contains(ss []string, s string) bool {
@@ -444,10 +582,26 @@ func applicable(c cas) (quirks int, id string) {
 func runCase(c cas) *vlib.Outcome {
 	p := build(c)
 	want := model(p, 0)
-	got, sources := runTwig(p, c.pad)
+	var got result
+	var sources map[string]string
+	var earlier []result
+	if c.hist != 0 {
+		p.hw.quirks = 0
+		hsc := newScope()
+		for _, k := range sortedKeys(p.hctx) {
+			hsc.set(k, p.hctx[k])
+		}
+		if _, ok := p.hw.evalTemplate(p.hw.tmpls["hist"], hsc, nil); ok {
+			panic("harness: the model renders the earlier program without a failure")
+		}
+		earlier, got, sources = runTwigAfterFailure(p, c.pad, c.hEng == 0)
+	} else {
+		got, sources = runTwig(p, c.pad)
+	}
 	exists := c.target == tPlain || c.target == tExtends
 	o := &vlib.Outcome{
-		Nontrivial: !exists || c.incMask != 0 || c.setMask != 0 || c.extra != 0 || c.opts&oW != 0 || c.xblk != 0,
+		// a history case is always non-trivial: the earlier render passed a, b, c, d to an include and defined them
+		Nontrivial: !exists || c.incMask != 0 || c.setMask != 0 || c.extra != 0 || c.opts&oW != 0 || c.xblk != 0 || c.hist != 0,
 		Counters:   map[string]int64{"renders": 1},
 	}
 	kind := "output"
@@ -460,6 +614,33 @@ func runCase(c cas) *vlib.Outcome {
 		o.Counters["includer_in_extends_chain"] = 1
 		if exists && (c.xblk >= 2 || c.extra >= 3) {
 			o.Counters["includer_in_extends_chain_same_named_block"] = 1
+		}
+	}
+	history := ""
+	if c.hist != 0 {
+		o.Class = "after-" + histLabel[c.hist] + "/" + o.Class
+		o.Counters["renders"] += histRounds
+		o.Counters["after_failed_include_render"] = 1
+		if c.hEng == 0 {
+			o.Counters["after_failed_include_render_same_engine"] = 1
+		}
+		engine := "the same engine"
+		if c.hEng == 1 {
+			engine = "another engine of the same process"
+		}
+		history = fmt.Sprintf("\n  before that, %d renders of template hist on %s with context %v", histRounds, engine, p.hctx)
+		for _, n := range []string{"hist", "hmid", "hinc", "brt", "nmi"} {
+			if _, ok := p.hw.tmpls[n]; ok {
+				history += fmt.Sprintf("\n    %s: %s", n, sources[n])
+			}
+		}
+		// the earlier render: "every other failure is reported"
+		for i, r := range earlier {
+			if r.err == "" {
+				o.Violation = fmt.Sprintf("a render that must fail inside an include (%s) returned %s without an error (round %d)%s", histLabel[c.hist], r, i+1, history)
+				o.Detail = map[string]interface{}{"templates": sources, "context": p.hctx, "got": r.String(), "want": "an error"}
+				return o
+			}
 		}
 	}
 	if same(got, want) {
@@ -476,7 +657,12 @@ func runCase(c cas) *vlib.Outcome {
 		}
 	}
 	o.Violation += fmt.Sprintf("\n  context: %v", p.ctx)
+	o.Violation += history
 	o.Detail = map[string]interface{}{"templates": sources, "context": p.ctx, "got": got.String(), "want": want.String()}
+	if c.hist != 0 {
+		o.Detail.(map[string]interface{})["earlier_context"] = p.hctx
+		o.Detail.(map[string]interface{})["earlier_results"] = fmt.Sprint(earlier)
+	}
 	if quirks, id := applicable(c); quirks != 0 {
 		if same2(got, model(p, quirks)) {
 			o.Known = id
@@ -623,6 +809,47 @@ func enumerate(t *vlib.T) {
 				for place := 0; place < nPlaces; place++ {
 					for _, pd := range []bool{false, true} {
 						emit(cas{target: target, opts: x.opts, withMask: x.withMask, wstyle: x.wstyle, name: nm, place: place, incMask: 3, pad: pd})
+					}
+				}
+			}
+		}
+	}
+	// 1a. history: a render that fails inside an include (every kind x options of the failing include x same /
+	// other engine) comes first, then an ordinary case of the grid: every option set and with-map shape, at a
+	// reduced set of placements / names / variable sets
+	hb := struct {
+		places, names, setMasks, extras []int
+	}{places: []int{pTop, pFor, pNest0}, names: []int{0}, setMasks: []int{0, 15}, extras: []int{0}}
+	if t.Thorough() {
+		hb.places = []int{pTop, pIf, pFor, pBlock, pMacro, pChildBlock, pNest0, pNest1, pNest2, pNest3, pNest4}
+		hb.names = []int{0, 2}
+		hb.extras = []int{0, 4}
+	}
+	for hist := 1; hist < nHist; hist++ {
+		for hOpts := 0; hOpts < 4; hOpts++ {
+			for hEng := 0; hEng <= 1; hEng++ {
+				for _, place := range hb.places {
+					for _, nm := range hb.names {
+						for _, x := range ows {
+							if t.Stopped() {
+								return
+							}
+							if (x.withMask == 0 || x.withMask == 3) && (x.wstyle == 0 || x.wstyle == 2) { // as in 1.
+								emit(cas{target: tMissing, opts: x.opts, withMask: x.withMask, wstyle: x.wstyle, name: nm, place: place, incMask: 3, hist: hist, hEng: hEng, hOpts: hOpts})
+							}
+							for _, target := range []int{tPlain, tExtends} {
+								for _, extra := range hb.extras {
+									if target == tExtends && extra >= 3 {
+										continue // as in 2.
+									}
+									for _, im := range []int{0, 3} {
+										for _, sm := range hb.setMasks {
+											emit(cas{target: target, opts: x.opts, withMask: x.withMask, wstyle: x.wstyle, name: nm, place: place, incMask: im, setMask: sm, extra: extra, hist: hist, hEng: hEng, hOpts: hOpts})
+										}
+									}
+								}
+							}
+						}
 					}
 				}
 			}
